@@ -132,6 +132,8 @@ class ArgumentParser(_ArgumentParser):
 def add_user_argument(parser, *names, **kwargs):
     if any(not i.startswith('--') for i in names):
         raise ValueError('option string must begin with "--"')
+    if any(i == '--' for i in names):
+        raise ValueError('option string must have a name')
     if any(i.startswith('--x-') for i in names):
         raise ValueError('"x-" prefix is reserved')
 
